@@ -55,7 +55,13 @@ class Ctx:
                            "anchored function %s not found in the analysed program (renamed or removed): "
                            "the rule instance cannot be evaluated and fails closed" % key)
             return None
-        return f
+        # calls to private helpers that no rule names are expanded in place (sa/inline.py)
+        if not hasattr(self.prog, "_expanded"):
+            self.prog._expanded = {}
+        if key not in self.prog._expanded:
+            from .inline import expand
+            self.prog._expanded[key] = expand(self.prog, f)
+        return self.prog._expanded[key]
 
     # ---- finish ----
     def finish(self):
